@@ -174,34 +174,62 @@ theorem same_meaning_same_behaviour (L : Layout) (st₁ st₂ : SStmt)
 
 /-! ### the laws -/
 
-def Cond.not : Cond → Cond
+/-- the negation written out: operators negated, `v` ↔ `!v`, De Morgan for `&&` / `||` -/
+def Cond.neg : Cond → Cond
   | .cmp op a b => .cmp op.negate a b
   | .truth v => .nottruth v
   | .nottruth v => .truth v
+  | .and a b => .or (Cond.neg a) (Cond.neg b)
+  | .or a b => .and (Cond.neg a) (Cond.neg b)
+  | .not c => c
 
-/-- `a ⋈ b` written from the other side -/
+/-- every comparison written from the other side (`a ⋈ b` ↦ `b ⋈' a`) -/
 def Cond.swap : Cond → Cond
   | .cmp op a b => .cmp op.mirror b a
+  | .and a b => .and (Cond.swap a) (Cond.swap b)
+  | .or a b => .or (Cond.swap a) (Cond.swap b)
+  | .not c => .not (Cond.swap c)
   | c => c
 
-theorem evalCond_not (L : Layout) (m : Mem) (c : Cond) : evalCond L m (Cond.not c) = !evalCond L m c := by
-  cases c with
-  | cmp op a b => simp [Cond.not, evalCond, negate_means_not]
-  | truth v => simp [Cond.not, evalCond, bne]
-  | nottruth v => simp [Cond.not, evalCond, bne]
+theorem evalCond_neg (L : Layout) (m : Mem) (c : Cond) : evalCond L m (Cond.neg c) = !evalCond L m c := by
+  induction c with
+  | cmp op a b => simp [Cond.neg, evalCond, negate_means_not]
+  | truth v => simp [Cond.neg, evalCond, bne]
+  | nottruth v => simp [Cond.neg, evalCond, bne]
+  | and a b iha ihb => simp [Cond.neg, evalCond, iha, ihb]
+  | or a b iha ihb => simp [Cond.neg, evalCond, iha, ihb]
+  | not c ih => simp [Cond.neg, evalCond]
 
 theorem evalCond_swap (L : Layout) (m : Mem) (c : Cond) : evalCond L m (Cond.swap c) = evalCond L m c := by
-  cases c with
+  induction c with
   | cmp op a b => simp [Cond.swap, evalCond, mirror_means_swap]
   | truth v => rfl
   | nottruth v => rfl
+  | and a b iha ihb => simp [Cond.swap, evalCond, iha, ihb]
+  | or a b iha ihb => simp [Cond.swap, evalCond, iha, ihb]
+  | not c ih => simp [Cond.swap, evalCond, ih]
+
+/-- De Morgan at the source level: `!(a && b)` ≡ `!a || !b`, `!(a || b)` ≡ `!a && !b` -/
+theorem de_morgan_law (L : Layout) (m : Mem) (a b : Cond) :
+    evalCond L m (.not (.and a b)) = evalCond L m (.or (.not a) (.not b)) ∧
+    evalCond L m (.not (.or a b)) = evalCond L m (.and (.not a) (.not b)) := by
+  simp [evalCond]
 
 /-- `if (c) A else B` ≡ `if (!c) B else A` -/
 theorem if_else_swap_law (L : Layout) (f : Nat) (m : Mem) (c : Cond) (t e : SStmt) :
-    sem L f m (.ifElse c t e) = sem L f m (.ifElse (Cond.not c) e t) := by
+    sem L f m (.ifElse c t e) = sem L f m (.ifElse (Cond.neg c) e t) := by
   cases f with
   | zero => rfl
-  | succ f => simp only [sem, evalCond_not]; cases evalCond L m c <;> simp
+  | succ f => simp only [sem, evalCond_neg]; cases evalCond L m c <;> simp
+
+/-- the same with the `!` operator itself: `if (c) A else B` ≡ `if (!(c)) B else A` -/
+theorem if_else_not_law (L : Layout) (f : Nat) (m : Mem) (c : Cond) (t e : SStmt) :
+    sem L f m (.ifElse c t e) = sem L f m (.ifElse (.not c) e t) := by
+  cases f with
+  | zero => rfl
+  | succ f =>
+    simp only [sem, evalCond]
+    rcases Bool.eq_false_or_eq_true (evalCond L m c) with h | h <;> simp [h]
 
 /-- replacing a loop / branch condition by one with the same truth value everywhere -/
 theorem cond_congr (L : Layout) (c c' : Cond) (hc : ∀ m, evalCond L m c = evalCond L m c') :
@@ -355,11 +383,11 @@ theorem compiled_equiv_struct (L : Layout) (st₁ st₂ : SStmt)
   same_meaning_same_behaviour L st₁ st₂ h₁ h₂ s m' hterm ((hlaw m').mp hterm)
 
 theorem compiled_if_else_swap (L : Layout) (c : Cond) (t e : SStmt)
-    (h₁ : SInFragment (.ifElse c t e) = true) (h₂ : SInFragment (.ifElse (Cond.not c) e t) = true)
+    (h₁ : SInFragment (.ifElse c t e) = true) (h₂ : SInFragment (.ifElse (Cond.neg c) e t) = true)
     (s : Cpu) (m' : Mem) (hterm : Sem L s.mem (.ifElse c t e) m') :
     ∃ s₁ s₂ n₁ n₂,
       runG L (gen {} (.ifElse c t e)).1 (gen {} (.ifElse c t e)).1.length n₁ 0 s = some s₁ ∧
-      runG L (gen {} (.ifElse (Cond.not c) e t)).1 (gen {} (.ifElse (Cond.not c) e t)).1.length n₂ 0 s = some s₂ ∧
+      runG L (gen {} (.ifElse (Cond.neg c) e t)).1 (gen {} (.ifElse (Cond.neg c) e t)).1.length n₂ 0 s = some s₂ ∧
       s₁.mem = s₂.mem ∧ s₁.x = s₂.x ∧ s₁.y = s₂.y ∧ s₁.sp = s₂.sp :=
   compiled_equiv_struct L _ _ h₁ h₂ s
     (fun m' => ⟨fun ⟨f, h⟩ => ⟨f, by rw [← if_else_swap_law]; exact h⟩, fun ⟨f, h⟩ => ⟨f, by rw [if_else_swap_law]; exact h⟩⟩) m' hterm
@@ -408,11 +436,11 @@ theorem compiled_compare_swap_while (L : Layout) (c : Cond) (b : SStmt)
 /-! non-vacuity: the spellings are different code, and both are in the fragment -/
 def demoC : Cond := .cmp .lt (.var "a") (.var "b")
 example : (gen {} (.ifElse demoC (.flat (.inc "c")) (.flat (.dec "c")))).1
-    ≠ (gen {} (.ifElse (Cond.not demoC) (.flat (.dec "c")) (.flat (.inc "c")))).1 := by decide
+    ≠ (gen {} (.ifElse (Cond.neg demoC) (.flat (.dec "c")) (.flat (.inc "c")))).1 := by decide
 example : (gen {} (.while demoC (.flat (.inc "a")))).1 ≠ (gen {} (.while (Cond.swap demoC) (.flat (.inc "a")))).1 := by decide
 example : (gen {} (.for (.asg "a" (.const 0)) demoC (.inc "a") (.flat (.inc "c")))).1
     ≠ (gen {} (.seq (.flat (.asg "a" (.const 0))) (.while demoC (.seq (.flat (.inc "c")) (.flat (.inc "a")))))).1 := by decide
-example : SInFragment (.ifElse (Cond.not demoC) (.flat (.dec "c")) (.flat (.inc "c"))) = true := by decide
+example : SInFragment (.ifElse (Cond.neg demoC) (.flat (.dec "c")) (.flat (.inc "c"))) = true := by decide
 example : SInFragment (.while (Cond.swap demoC) (.flat (.inc "a"))) = true := by decide
 
 end CV.C15
